@@ -55,7 +55,8 @@ def evaluate(case):
     if case.get("weights_as") and "Weights" in params:
         # the same weights handed over as numpy scalars, as a caller of the programming interface may do
         t = numpy.dtype(case["weights_as"]).type
-        if not (case["weights_as"].startswith("int") and any(w != int(w) for w in params["Weights"])):
+        # (only when the numpy type holds every weight exactly: 0.333 is another number in single precision)
+        if all(float(t(w)) == w for w in params["Weights"]) and not (case["weights_as"].startswith("int") and any(w != int(w) for w in params["Weights"])):
             params = dict(params, Weights=[t(w) for w in params["Weights"]])
     o.status, o.result = A.run_command(cmd, o.arrays, params, aliases=case.get("aliases"), fuzzy_inputs=case.get("inputs_fuzzy"))
     return o
